@@ -24,4 +24,8 @@ theorem materialize_loop_tie :
        "for i := 0; i < len(sw.Sigs) && nsigs < sw.Quorum; i++", "call len", "i++",
        "if len(sw.Sigs[i]) > 0", "call len", "call append", "nsigs++", "call append"] := by decide
 
+
+/-- the witnesses' JSON carries the WHOLE `Sigs` array, empty slots included (slot i = key i) -/
+theorem witness_json_sigs_tie : sigWitnessMarshalSigs = "sw.Sigs" ∧ rawTxSigWitnessMarshalSigs = "sw.Sigs" := by decide
+
 end BytomModel.Ties.C27
